@@ -88,7 +88,8 @@ def euclidK (P : Nat) (x y : Nat → Option α) : α × α :=
 
 /-- Poisson preprocessing of `calc`: `d = (x + λ·w)/(1 + w)`, `l = log d`; NaN stays NaN -/
 def poissonPrep [HasLog α] (lam pw : α) (x : Nat → Option α) : Nat → Option (α × α) :=
-  fun c => (x c).map (fun v => let d := (v + lam * pw) / (1 + pw); (d, HasLog.log d))
+  fun c => (x c).map (fun v =>
+    let d := (v + priorLambdaL lam pw) / priorWeightL pw; (d, HasLog.log d))
 
 def poissonAt (x y : Nat → Option (α × α)) (c : Nat) : α :=
   match x c, y c with
@@ -211,7 +212,7 @@ def two : α := ((2 : Nat) : α)
     of the three entries is NaN -/
 def distOf (n : Nat) (out : Nat → Option α) (a b : Nat) : Option α :=
   match out a, out b, out (pairKey n a b) with
-  | some sa, some sb, some cab => some (sa + sb - two * cab)
+  | some sa, some sb, some cab => some (combine sa sb cab)
   | _, _, _ => none
 
 /-- the dissimilarity vector as the Python layer assembles it: position `p` of the `triu`
@@ -219,7 +220,7 @@ def distOf (n : Nat) (out : Nat → Option α) (a b : Nat) : Option α :=
 def assemble (n : Nat) (out : Nat → Option α) : List (Option α) :=
   (pairs n).zipIdx.map (fun (ab, p) =>
     match out ab.1, out ab.2, out (n + p) with
-    | some sa, some sb, some cab => some (sa + sb - two * cab)
+    | some sa, some sb, some cab => some (combine sa sb cab)
     | _, _, _ => none)
 
 /-- the whole unbalanced estimator on coded inputs -/
